@@ -147,29 +147,34 @@ def preemptions(points, choices, upto):
     return c
 
 
-def explore(make_bodies, traced_files, bound, check, opcode=False, max_exec=None):
-    """enumerates every schedule with at most `bound` preemptions.  make_bodies() -> fresh list of callables.
-    check(execution) is called for each complete execution.  Returns statistics."""
+def explore(run_one, bound, check, part=None, max_exec=None):
+    """enumerates every schedule with at most `bound` preemptions.
+    run_one(prefix) executes ONE schedule (typically in a forked pristine interpreter) and returns a dict with
+    'points' [(enabled tuple, running_still_enabled)], 'choices' [...] and whatever check() needs.
+    check(record) is called for each complete execution.  part=(k, n) restricts the FIRST deviation from the default
+    schedule to point indices i with i % n == k (partition of the schedule space over workers).  Returns statistics."""
     stats = {'executions': 0, 'max_points': 0, 'capped': False, 'bound': bound}
     stack = [[]]
     while stack:
         prefix = stack.pop()
-        ex = Execution(make_bodies(), traced_files, prefix, opcode=opcode).run()
-        if ex.choices[:len(prefix)] != prefix:
+        ex = run_one(prefix)
+        if list(ex['choices'][:len(prefix)]) != list(prefix):
             raise Divergence('replayed prefix not reproduced')
         stats['executions'] += 1
-        stats['max_points'] = max(stats['max_points'], len(ex.points))
+        stats['max_points'] = max(stats['max_points'], len(ex['points']))
         check(ex)
         if max_exec is not None and stats['executions'] >= max_exec:
             stats['capped'] = True
             break
-        for i in range(len(prefix), len(ex.points)):
-            en, running_enabled = ex.points[i]
-            cost = preemptions(ex.points, ex.choices, i)
+        for i in range(len(prefix), len(ex['points'])):
+            if part is not None and not prefix and i % part[1] != part[0]:
+                continue
+            en, running_enabled = ex['points'][i]
+            cost = preemptions(ex['points'], ex['choices'], i)
             if running_enabled:
                 cost += 1
             if cost > bound:
                 continue
             for alt in range(1, len(en)):
-                stack.append(ex.choices[:i] + [alt])
+                stack.append(list(ex['choices'][:i]) + [alt])
     return stats
